@@ -415,7 +415,11 @@ pub fn check(cfg: &CheckCfg) -> i32 {
     // per-run log hash, so equal hashes = byte-identical outputs across processes.
     let mut cross_compared = 0u64;
     let mut cross_diff: Vec<u64> = vec![];
-    if cfg.property == "C10" && cfg.only.is_none() {
+    // C14 uses the same leg: a run's log hash covers the session's and the fresh processes' outputs,
+    // and the second batch executes the run after a different prefix of other runs in its OS process
+    // (other state of the process-global SWC_GLOBALS, other allocator state): equal hashes = the
+    // outputs do not depend on what else the process did before.
+    if (cfg.property == "C10" || cfg.property == "C14") && cfg.only.is_none() {
         let n = if cfg.tier == "quick" { cfg.runs.min(4000) } else { cfg.runs.min(100_000) };
         let cfg2 = CheckCfg { property: cfg.property.clone(), tier: cfg.tier.clone(), runs: n, workers: 5, determinism: true, collect_codes: false, only: None, pin_workers: true };
         let (AggOut(b), _s2) = run_batch(&cfg2, (0..n).rev().collect());
@@ -454,7 +458,7 @@ pub fn check(cfg: &CheckCfg) -> i32 {
             continue;
         }
         let run = plan(&corpus, &cfg.property, &cfg.tier, root, idx);
-        match exec_isolated(&run, Duration::from_secs(60)) {
+        match exec_isolated(&run, Duration::from_secs(if kind == "stalled" { 30 } else { 60 })) {
             Isolated::Done(out) => {
                 // did not reproduce in isolation
                 if kind == "stalled" {
@@ -546,10 +550,10 @@ pub fn check(cfg: &CheckCfg) -> i32 {
     for idx in cross_diff.iter().take(3) {
         let mut run = plan(&corpus, &cfg.property, &cfg.tier, root, *idx);
         run.violation_class = "differ:across-os-processes".into();
-        run.observed = json!({"property": "C10", "class": run.violation_class, "detail": "the per-run log hash (all outputs of all variants) differs between two OS processes (16 workers unpinned vs 5 workers each pinned to one CPU)", "first_seen_in_run": idx, "root_seed": root});
-        let path = replay_path("C10", &run);
+        run.observed = json!({"property": cfg.property, "class": run.violation_class, "detail": "the per-run log hash (every output of every build of the run) differs between two OS processes (16 workers unpinned vs 5 workers each pinned to one CPU, runs executed in another order)", "first_seen_in_run": idx, "root_seed": root});
+        let path = replay_path(&cfg.property, &run);
         std::fs::write(&path, serde_json::to_string_pretty(&run).unwrap()).expect("write replay file");
-        let v = Violation { property: "C10".into(), class: run.violation_class.clone(), detail: run.observed.clone(), op_index: 0 };
+        let v = Violation { property: cfg.property.clone(), class: run.violation_class.clone(), detail: run.observed.clone(), op_index: 0 };
         reported.push((v, path));
     }
 
@@ -647,7 +651,7 @@ pub fn check(cfg: &CheckCfg) -> i32 {
             "c04_distinct_emitted_modules_seen": agg.codes.len(),
             "c10_comparisons": agg.stats.c10_comparisons,
             "c10_variants_built": agg.stats.c10_variants_built,
-            "c10_runs_compared_across_os_processes": cross_compared,
+            "runs_compared_across_os_processes": cross_compared,
             "faults_fired": agg.stats.fired,
             "rare_condition_probes": agg.stats.probes,
             "known_findings_hit": agg.stats.known_findings,
@@ -892,7 +896,7 @@ pub fn replay_file(path: &str, quiet: bool) -> i32 {
         return match (a, b) {
             (Isolated::Done(a), Isolated::Done(b)) if a.log_hash != b.log_hash => {
                 if !quiet {
-                    println!("VIOLATION property=C10 replay={} class={}", path, class);
+                    println!("VIOLATION property={} replay={} class={}", want_prop, path, class);
                 }
                 1
             }
